@@ -269,14 +269,18 @@ class MessagePackRpc(MessagePackDocument):
                     raise ValidationError(msgname_or_error,
                                                       "Invalid method name %r")
 
+        # the message type is what the peer says it is, so it's not to be
+        # trusted to be what we expect.
         if msgtype == MessagePackRpc.MSGPACK_REQUEST:
-            assert message == MessagePackRpc.REQUEST
+            if message != MessagePackRpc.REQUEST:
+                raise MessagePackDecodeError("Unexpected request message")
 
         elif msgtype == MessagePackRpc.MSGPACK_RESPONSE:
-            assert message == MessagePackRpc.RESPONSE
+            if message != MessagePackRpc.RESPONSE:
+                raise MessagePackDecodeError("Unexpected response message")
 
         elif msgtype == MessagePackRpc.MSGPACK_NOTIFY:
-            raise NotImplementedError()
+            raise MessagePackDecodeError("Notifications are not supported")
 
         else:
             raise MessagePackDecodeError("Unknown message type %r" % msgtype)
